@@ -520,6 +520,14 @@ func runSessionFamily(env *pipeline.Env, fam SessFamily, tier string, seed int64
 			groupChecks[s.Group] = true
 		}
 	}
+	// ungrouped shapes: the validator keeps memory across the behaviours of one shape only for C05 (the first result per
+	// input skeleton); every other family may be cut in front of any behaviour
+	memoAcross := false
+	for _, e := range fam.Eval {
+		if e == "C05" {
+			memoAcross = true
+		}
+	}
 	var behs []behaviour
 	for i, v := range vecs {
 		for _, mv := range v.ModelViol {
@@ -554,7 +562,7 @@ func runSessionFamily(env *pipeline.Env, fam SessFamily, tier string, seed int64
 		b := behaviour{ID: id, Key: s.runKey() + "/" + s.Root, Shape: v.Shape,
 			Meta: map[string]interface{}{"d": d, "cfg": c, "root": s.Root, "eval": fam.Eval, "shape": unit, "shapeid": v.Shape,
 				"run": s.runKey(), "group": s.Group, "role": s.Role, "gchecks": gchecks, "pair": pair,
-				"cut": s.Group != "" && !groupChecks[s.Group] && pairIsBase(pair)}}
+				"cut": (s.Group != "" && !groupChecks[s.Group] && pairIsBase(pair)) || (s.Group == "" && !memoAcross)}}
 		for _, st := range v.Steps {
 			b.Steps = append(b.Steps, driverStep(st))
 		}
